@@ -213,11 +213,11 @@ def check_points(q, r, ntheta, rng, bad, stats, label=''):
     return n, (R2, Z2, P0)
 
 
-def trig_distance(q, r, ntheta, P0):
-    """(b): largest distance between the spline-evaluated and the trigonometrically interpolated position at the returned phi0,
-    and the spectral tail of the interpolated data"""
+def trig_distance(q, r, ntheta, P0, probe=None):
+    """(b): largest distance between the spline-evaluated and the trigonometrically interpolated position at the returned phi0
+    (and, if given, at the probe angles: sup-norm estimate of the interpolation error), and the spectral tail of the interpolated data"""
     theta = np.arange(ntheta) * (TWO_PI / ntheta)
-    d, tail = 0.0, 0.0
+    d, dsup = 0.0, 0.0
     profs = [q.R0, q.Z0] + [v[:, i] for v in (q.normal_cylindrical, q.binormal_cylindrical, q.tangent_cylindrical) for i in range(3)]
     tail = max(spec_tail(p) for p in profs)
     for j in range(ntheta):
@@ -226,13 +226,17 @@ def trig_distance(q, r, ntheta, P0):
         _, _, _, ps = point_map(q, X, Y, Z, P0[j], 'spline')
         _, _, _, pt = point_map(q, X, Y, Z, P0[j], 'trig')
         d = max(d, float(np.max(np.sqrt(np.sum((ps - pt) ** 2, axis=0)))))
-    return d, tail
+        if probe is not None:
+            _, _, _, ps = point_map(q, X, Y, Z, probe, 'spline')
+            _, _, _, pt = point_map(q, X, Y, Z, probe, 'trig')
+            dsup = max(dsup, float(np.max(np.sqrt(np.sum((ps - pt) ** 2, axis=0)))))
+    return d, dsup, tail
 
 
-def check_trig(cfg, q, r, ntheta, P0, bad, stats):
+def check_trig(cfg, q, r, ntheta, P0, rng, bad, stats):
     n = 0
     Rmaj = float(np.mean(q.R0))
-    d, tail = trig_distance(q, r, ntheta, P0)
+    d, _, tail = trig_distance(q, r, ntheta, P0)
     if q.nphi >= 31:
         if tail > 1e-7:
             stats['trig_unresolved'] = stats.get('trig_unresolved', 0) + 1
@@ -242,27 +246,37 @@ def check_trig(cfg, q, r, ntheta, P0, bad, stats):
             if d > 1e-5 * Rmaj:
                 bad('trig:1e-5', 'spline-evaluated surface points are %.3g major radii away from the trigonometric evaluation of the grid data (nphi=%d, order %s, r=%.4g, spectral tail %.1g)'
                     % (d / Rmaj, q.nphi, q.order, r, tail), r=r, ntheta=ntheta)
-    # ladder
+    # ladder.  The leading error of a cubic spline is f''''/24 h^4 t^2 (1-t)^2 with t the offset from the nearest node in units of h.
+    # The returned phi0 sit at a FIXED small distance (set by r) from a node, so there the error only decreases like h^2 (factor 4 per
+    # doubling) until h reaches that distance; the nphi^-3 of the property is therefore asserted for the sup-norm over the period
+    # (random probe angles; measured factor ~16) and a factor >= 3 for the error at the returned points.
     nt = min(ntheta, 4)
-    ds, tails = [], []
+    probe = rng.random(48) * (TWO_PI / q.nfp)
+    ds, dsup, tails = [], [], []
     for m in (31, 61, 121):
         c = dict(cfg); c['nphi'] = m
         qm, _ = build(c)
         with np.errstate(all='ignore'):
             _, _, P = qm.Frenet_to_cylindrical(r, nt)
-        dd, tt = trig_distance(qm, r, nt, P)
-        ds.append(dd); tails.append(tt)
-    if tails[0] > 1e-6:
-        stats['ladder_unresolved'] = stats.get('ladder_unresolved', 0) + 1
-        return n
-    n += 1
-    floor = 1e-12 * Rmaj
-    stats['min_ladder_ratio'] = min(stats.get('min_ladder_ratio', 1e9), *[ds[i] / max(ds[i + 1], floor) for i in range(2) if ds[i] > 100 * floor])
+        a, b, t = trig_distance(qm, r, nt, P, probe)
+        ds.append(a); dsup.append(b); tails.append(t)
+    floor = 1e-11 * Rmaj
     for i in range(2):
-        # third order: factor 8 per doubling (measured: ~16, cubic splines are fourth order); 5 leaves room for pre-asymptotic rungs
-        if ds[i + 1] > max(ds[i] / 5.0, floor * 10):
-            bad('trig:ladder', 'spline interpolation error does not decrease like nphi^-3: %s at nphi = (31, 61, 121) (order %s, r=%.4g)' % (['%.3g' % v for v in ds], q.order, r),
-                r=r, ntheta=ntheta, ladder=ds)
+        if tails[i] > 1e-6:
+            stats['ladder_unresolved'] = stats.get('ladder_unresolved', 0) + 1
+            continue
+        n += 2
+        if dsup[i] > 100 * floor:
+            stats['min_ladder_ratio_sup'] = min(stats.get('min_ladder_ratio_sup', 1e9), dsup[i] / max(dsup[i + 1], floor))
+        if ds[i] > 100 * floor:
+            stats['min_ladder_ratio_pts'] = min(stats.get('min_ladder_ratio_pts', 1e9), ds[i] / max(ds[i + 1], floor))
+        if dsup[i + 1] > max(dsup[i] / 6.0, floor):
+            bad('trig:ladder', 'cubic-spline interpolation error of the surface (sup over the period) does not decrease like nphi^-3: %s at nphi = (31, 61, 121) (order %s, r=%.4g)'
+                % (['%.3g' % v for v in dsup], q.order, r), r=r, ntheta=ntheta, ladder=dsup)
+            break
+        if ds[i + 1] > max(ds[i] / 3.0, floor):
+            bad('trig:ladder-points', 'interpolation error at the returned surface points does not decrease at second order: %s at nphi = (31, 61, 121) (order %s, r=%.4g)'
+                % (['%.3g' % v for v in ds], q.order, r), r=r, ntheta=ntheta, ladder=ds)
             break
     return n
 
@@ -371,7 +385,7 @@ def fortran_corpus(bad, stats):
             a = np.zeros((2 * ntor + 1, mpol + 1)) if np.ndim(a) == 0 else a
             worst = max(worst, float(np.max(np.abs(a.T - v[k]))))
         stats['fortran_max_diff'] = max(stats.get('fortran_max_diff', 0.0), worst)
-        if worst > 1e-8:
+        if worst > 1e-10:
             bad('fortran:coefficients', 'surface Fourier coefficients at r=%.4g differ from the Fortran reference %s (order %s) by %.3g' % (r, name, order, worst), file=name)
         # axis through the spline functions used for plotting
         ph = np.linspace(0, TWO_PI, 9)
@@ -404,7 +418,7 @@ def predict(cfg, rng, q=None, thorough=False, sub=None, stats=None):
     if surf is not None:
         n += check_fourier_surface(q, r, surf[0], surf[1], r2, bad, stats)
         if thorough:
-            n += check_trig(cfg, q, r, ntheta, surf[2], bad, stats)
+            n += check_trig(cfg, q, r, ntheta, surf[2], r2, bad, stats)
     n += check_fourier_synthetic(r2, bad, stats, count=8 if thorough else 4)
     return out, n
 
